@@ -25,6 +25,11 @@ TEXTS = {
     "bad_lex": 'def exp { salt: "s1" splitters: uid return "L1" weighted 1 @ }',
     "bad_syn": 'def exp { splitters: uid return "S1" weighted 1, "S2" weighted }',
     "bad_py": 'def class { splitters: uid return "P1" weighted 1 }',
+    # texts that end inside a block comment (whatever a fresh constructor does with them is the model)
+    "open_comment_after": A + " /* never closed",
+    "open_comment_inside": 'def exp { splitters: uid /* never closed  return "O1" weighted 1 }',
+    "bad_empty": "",
+    "bad_two_defs": A + "\n" + 'def other { splitters: org return "X" weighted 1 }',
 }
 INPUTS = [
     {"uid": 1, "org": "a", "f": 1, "g": 3},
@@ -44,7 +49,7 @@ def run(res, tier):
     xlife.explore(res, spec)
     res.set("traces_validated_against_impl", res.cov.get("transitions", 0))
     res.set("bounds", {"slots": spec.slots, "depth": spec.depth, "texts": sorted(TEXTS), "inputs": len(spec.inputs), "accepted_by_fresh_constructor": sorted(k for k, v in spec.fresh.items() if v)})
-    if res.cov.get("global_state_changed"):
+    if res.cov.get("global_state_changed") and not res.cov.get("isolated_mode"):
         res.caps.append("module-level state of pyab_experiment changed during exploration: states are merged on the model + per-object fingerprint only")
     res.assumptions += ["'behaves like a fresh evaluator' is decided on the probe inputs; acceptance of a text is what a fresh constructor does with it"]
 
@@ -52,6 +57,9 @@ def run(res, tier):
 def replay(data):
     spec = spec_for("thorough")
     spec.prepare()
+    if data.get("kind") == "life:two-fresh-evaluators":
+        ok, tab, note = spec._fresh_one(data["text"])
+        return bool(note), note or "two fresh evaluators agree"
     hist = [tuple(h) for h in data["history"]]
     objs, model, outs = spec.run_history(hist[:-1])
     op = hist[-1]
